@@ -62,7 +62,7 @@ func newTokenizer(kind string) tokenizers.ITokenizer {
 		return mtok.NewMustacheTokenizer()
 	case "generic+sym":
 		t := generic.NewGenericTokenizer()
-		for _, s := range []string{"...", "=:~", "-->", "::=", "≠≠", "<=>"} {
+		for _, s := range []string{"...", "=:~", "-->", "::=", "≠≠", "<=>", "<!--", "=:~=:~"} {
 			t.SymbolState().Add(s, tokenizers.Symbol)
 		}
 		t.SetCharacterState('≠', '≠', t.SymbolState())
